@@ -8,7 +8,9 @@ package main
 //   - value forms exact / prefix* / *suffix / * .
 
 import (
+	"fmt"
 	"net/netip"
+	"sort"
 	"strconv"
 	"strings"
 
@@ -786,6 +788,75 @@ func customDenies(s *sut, r *request) bool {
 		}
 	}
 	return false
+}
+
+// customAsks: the extension providers whose authorizer the request has to be sent to (sorted): the CUSTOM
+// policies are not in the fail-closed mode, the provider is defined and usable on this kind of chain (an
+// HTTP-type provider cannot serve a network filter chain), and an enforced CUSTOM policy naming it matches.
+func customAsks(s *sut, r *request) []string {
+	specBundle = s.bundle
+	specTCP = s.forTCP
+	provs := map[string]bool{}
+	for i := range s.policies {
+		p := &s.policies[i]
+		if s.applies(p) && p.Spec.Action == authpb.AuthorizationPolicy_CUSTOM {
+			provs[p.Spec.GetProvider().GetName()] = true
+		}
+	}
+	if len(provs) > 1 && !s.multi {
+		return nil
+	}
+	usable := func(n string) bool {
+		for _, k := range s.providers {
+			if k == n || (k == "http:"+n && !s.shapeTCP) {
+				return true
+			}
+		}
+		return false
+	}
+	names := make([]string, 0, len(provs))
+	for n := range provs {
+		names = append(names, n)
+	}
+	sort.Strings(names)
+	var out []string
+	stale := "" // classification only: the id an earlier provider's RBAC filter left behind (see isLoose "xprov")
+	for _, n := range names {
+		if !usable(n) {
+			continue
+		}
+		own := ""
+		for i := range s.policies {
+			p := &s.policies[i]
+			if !s.applies(p) || p.Spec.Action != authpb.AuthorizationPolicy_CUSTOM || isDryRun(p) || p.Spec.GetProvider().GetName() != n {
+				continue
+			}
+			for j, rule := range p.Spec.Rules {
+				if rule == nil {
+					continue
+				}
+				specRemaining = true
+				m := ruleMatches(p.Namespace, rule, r)
+				specRemaining = false
+				if m {
+					id := fmt.Sprintf("istio-ext-authz-%s-ns[%s]-policy[%s]-rule[%d]", n, p.Namespace, p.Name, j)
+					if own == "" || id < own {
+						own = id
+					}
+				}
+			}
+		}
+		switch {
+		case own != "":
+			out = append(out, n)
+			stale = own
+		case isLoose("xprov", n) && strings.HasPrefix(stale, "istio-ext-authz-"+n):
+			// today: the enabling matcher is a PREFIX match on the stored policy id, which another provider's
+			// policy id satisfies when this provider's name continues into it (`x` / `x-ns`)
+			out = append(out, n)
+		}
+	}
+	return out
 }
 
 // isDryRun: the policy carries istio.io/dry-run with a value that reads as true (1, t, T, TRUE, true, True).
